@@ -416,6 +416,10 @@ func intTrueDiv(a, b *big.Int) (Object, error) {
 	if math.IsInf(f, 0) {
 		return nil, ExceptionNewf(OverflowError, "integer division result too large for a float")
 	}
+	if f == 0 && b.Sign() < 0 {
+		// 0 / -5 is -0.0
+		f = math.Copysign(0, -1)
+	}
 	return Float(f), nil
 }
 
